@@ -222,6 +222,8 @@ type vSeqHolder struct {
 	R  string `prop:"k3"`
 	// prop shorthand without a default whose argument values contain the key/default separator
 	T string `prop:"k9,note=a:b c:d,required=false"`
+	// prop shorthand with an empty key: the arguments still start at the first top-level comma
+	E string `prop:",required=false"`
 }
 
 func VerifC09ValueSequence() {
@@ -241,8 +243,11 @@ func VerifC09ValueSequence() {
 	h := &vSeqHolder{}
 	nd.Assert(va.PostProcessDefinitionRegistry(reg, h, "h") == nil, "scan ok")
 	props := reg.GetMetaByName("h").GetConfigurationProperties()
-	nd.Assert(len(props) == 7, "C11: one configuration property per tagged field, embedded ones included")
+	nd.Assert(len(props) == 8, "C11: one configuration property per tagged field, embedded ones included")
 	for _, p := range props {
+		if p.StructField.Name == "E" {
+			nd.Assert(p.TagVal == "${}" && !p.IsRequired(), "C19: the prop shorthand splits value and arguments at the first top-level comma, also when the key is empty")
+		}
 		if p.StructField.Name == "T" {
 			note, _ := p.Args().Find("note")
 			nd.Assert(p.TagVal == "${k9}" && !p.IsRequired() && len(note) == 2 && note[0] == "a:b" && note[1] == "c:d",
@@ -263,7 +268,7 @@ func VerifC09ValueSequence() {
 		nd.Cover("all required values present")
 		nd.Assert(err == nil, "C09: optional values that cannot be satisfied never cause a failure")
 		nd.Assert(h.V == s && h.R == s, "C09: a configured value is bound")
-		nd.Assert(h.O1 == "" && h.P1 == "" && h.O2 == "" && h.EO == "" && h.T == "", "C09: an optional value that cannot be satisfied leaves its field at the zero value")
+		nd.Assert(h.O1 == "" && h.P1 == "" && h.O2 == "" && h.EO == "" && h.T == "" && h.E == "", "C09: an optional value that cannot be satisfied leaves its field at the zero value")
 		return
 	}
 	nd.Cover("a required value is missing after optional ones")
